@@ -82,8 +82,8 @@ Definition dispatch_bytes (fn : N) (a : list val) : val :=
   | _ => VErr 999
   end.
 
-(* Receive on a v2-only plaintext conversation, restricted to v2 fragments and plain
-   text without OTR markers: what each call returns as plaintext *)
+(* Receive on a v2-only plaintext conversation, restricted to v2 fragments, plain text without OTR markers and
+   encoded messages that are rejected: what each call returns as plaintext *)
 Fixpoint run_v2_frags (c : fragctx) (msgs : list bytes) : list val :=
   match msgs with
   | [] => []
@@ -91,6 +91,10 @@ Fixpoint run_v2_frags (c : fragctx) (msgs : list bytes) : list val :=
       if is_prefix v_otrv2FragmentationPrefix m then
         let '(c', done) := receiveFragmentV2 c m in
         (match done with Some d => VB d | None => VNone end) :: run_v2_frags c' r
+      else if is_prefix [63; 79; 84; 82; 58] m then
+        (* "?OTR:" - an encoded message; the harness only sends ones this conversation rejects: nothing is returned,
+           and like every message that is not a fragment it ends the fragment stream *)
+        VNone :: run_v2_frags fc_empty r
       else VB m :: run_v2_frags fc_empty r
   end.
 
